@@ -440,7 +440,9 @@ func e4Nil(e *e4Engine, funcs []*ssa.Function, res *e4Result) {
 			if !hasNil {
 				return
 			}
-			for _, use := range derefUses(ph) {
+			uses := append(derefUses(ph), argDerefUses(c.P, ph)...)
+			uses = append(uses, varargDerefUses(c.P, ph)...)
+			for _, use := range uses {
 				res.nNil++
 				name := ph.Comment
 				if name == "" {
@@ -1158,4 +1160,68 @@ func storedNonNilAt(s *ssa.Store, r *ssa.Return) bool {
 		}
 	}
 	return false
+}
+
+// varargDerefUses: calls that pass v as one of the variadic arguments of a module function which dereferences the
+// elements of that parameter without a nil check (for _, m := range msgs { m.F … })
+func varargDerefUses(p *Prog, v ssa.Value) []ssa.Instruction {
+	var out []ssa.Instruction
+	if v.Referrers() == nil {
+		return nil
+	}
+	for _, ref := range *v.Referrers() {
+		st, ok := ref.(*ssa.Store)
+		if !ok || st.Val != v {
+			continue
+		}
+		ia, ok := st.Addr.(*ssa.IndexAddr)
+		if !ok {
+			continue
+		}
+		al, ok := ia.X.(*ssa.Alloc)
+		if !ok || al.Comment != "varargs" {
+			continue
+		}
+		for _, r2 := range *al.Referrers() {
+			sl, ok := r2.(*ssa.Slice)
+			if !ok {
+				continue
+			}
+			for _, r3 := range *sl.Referrers() {
+				cl, ok := r3.(*ssa.Call)
+				if !ok || cl.Call.StaticCallee() == nil {
+					continue
+				}
+				g := cl.Call.StaticCallee()
+				if !inModule(g) || g.Blocks == nil || !g.Signature.Variadic() || len(g.Params) == 0 {
+					continue
+				}
+				prm := g.Params[len(g.Params)-1]
+				if len(cl.Call.Args) == 0 || cl.Call.Args[len(cl.Call.Args)-1] != ssa.Value(sl) {
+					continue
+				}
+				// elements of the variadic parameter dereferenced unguarded inside g
+				bad := false
+				allInstrs(g, func(in ssa.Instruction) {
+					ld, ok := in.(*ssa.UnOp)
+					if !ok || ld.Op != token.MUL {
+						return
+					}
+					ea, ok := ld.X.(*ssa.IndexAddr)
+					if !ok || ea.X != ssa.Value(prm) {
+						return
+					}
+					for _, use := range derefUses(ld) {
+						if !nilGuarded(use, ld) {
+							bad = true
+						}
+					}
+				})
+				if bad {
+					out = append(out, cl)
+				}
+			}
+		}
+	}
+	return out
 }
